@@ -46,6 +46,17 @@ CLAIMED = {
          'Uniformity of NumPy randint is trusted (chi-square supporting test only); draws are captured by replacing '
          'numpy.random.randint in the harness process.',
          'DESIGN.md section 7, C09'),
+ 'C05': ('Coq proofs about the fold index arithmetic for all 0<k<=n and every shuffle outcome, group-level selection lemmas and '
+         'non-interference of handed-out objects + in-Coq correspondence of all eight fold generators with recorded shuffles',
+         'Theorems (axiom-free): the k-fold test index sets partition 0..n-1 for every 0<k<=n, are pairwise disjoint, differ in size '
+         'by at most one, training = complement when k>1; the same for the value lists under EVERY ordering of the groups; an item '
+         'is handed out iff its descriptor value is requested, so groups and bootstrap copies are never split; a handed-out object is '
+         'unchanged by any alteration of entries involving non-selected conditions or RDMs; contents satisfy the C10 invariant. '
+         'Correspondence: sets_leave_one_out_*, sets_k_fold*, sets_of_k_*, sets_random on tagged objects incl. bootstrap copies; '
+         'every train/test/ceil object and index list compared inside Coq.',
+         'The theta / score non-interference inside crossval is a supporting perturbation test through a recording fitter, '
+         'not a theorem about evaluate.py; np.random.shuffle outcomes are recorded by an in-process wrapper.',
+         'DESIGN.md section 7, C05'),
 }
 NA_REASON = 'check not built yet in this round (work in progress; see DESIGN.md section 7)'
 
